@@ -84,11 +84,21 @@ def read_sets(chk, d, ents):
                 flags = [True] * len(dims)  # expression kernels carry no flags: attribution only
             space = tuple_space(chk, c)
             ent0, prm0 = space[0]
-            tuples = " ".join(f"({_sx(ent)} {_sx(prm)})" for ent, prm in space)
-            r = d.ask(f"(coefreads {c.ast_sexp} {width} {_sx(dims)} {_sx('true' if f else 'false' for f in flags)} "
-                      f"{shape_inputs(c, ent0, prm0)} {tuples})")
-            if r[0] != "ok" or len(r) != 1 + len(space):
-                chk.disagree("read-set run fails", {"kernel": c.name, "reply": r[:3]})
+            # the reads of c (checked against its extent only; C08 bounds every access for every tuple) are collected for every
+            # tuple of small products and for at most ~64 evenly spaced tuples (first and last included) of large ones
+            step = max(1, len(space) // 64)
+            with_c = [k % step == 0 or k == len(space) - 1 for k in range(len(space))]
+            tl = [f"({_sx(ent)} {_sx(prm)} {'true' if wc else 'false'})" for (ent, prm), wc in zip(space, with_c)]
+            r, failed = ["ok"], None
+            for k0 in range(0, len(tl), 128):  # one request per 128 tuples (the driver's reply timeout is per request)
+                rk = d.ask(f"(coefreads {c.ast_sexp} {width} {_sx(dims)} {_sx('true' if f else 'false' for f in flags)} "
+                           f"{shape_inputs(c, ent0, prm0)} {' '.join(tl[k0:k0 + 128])})")
+                if rk[0] != "ok" or len(rk) != 1 + len(tl[k0:k0 + 128]):
+                    failed = rk
+                    break
+                r += rk[1:]
+            if failed is not None:
+                chk.disagree("read-set run fails", {"kernel": c.name, "reply": failed[:3]})
                 continue
             rw, rc, used_lean = set(), set(), set()
             unknown = False
@@ -203,7 +213,8 @@ def run(chk):
                     "to exec are unread_irrelevant, disabled_irrelevant, reads_in_blocks (readsAvoidB_eq: what the driver evaluates)"]
     chk.lean(L.LAYOUT_MODULE, L.C05_THEOREMS, extra_files=L.LAYOUT_FILES)
     chk.lean("FfcxProofs.C05", C05_KERNEL_THEOREMS,
-             extra_files=[L.LEAN / "FfcxModel/LNodes/ReadBlocks.lean", L.LEAN / "FfcxModel/LNodes/Reads.lean", L.LEAN / "FfcxModel/LNodes/ReadOnly.lean"])
+             extra_files=[L.LEAN / "FfcxModel/LNodes/ReadBlocks.lean", L.LEAN / "FfcxModel/LNodes/Reads.lean", L.LEAN / "FfcxModel/LNodes/ReadOnly.lean",
+                          L.LEAN / "FfcxModel/Driver/ReadOnly.lean"])
     with lean.Driver("driver_layout") as d:
         L.check_c05_layout(chk, d)
         ents = _entries(chk)
